@@ -31,6 +31,9 @@ type scriptSpec struct {
 	Mut    bool `json:"mut,omitempty"`
 	MutPos int  `json:"mut_pos,omitempty"`
 	MutVal byte `json:"mut_val,omitempty"`
+	// Long: this many OP_NOP bytes stand in front of the script - a script longer than what an interpreter would
+	// run (10000 bytes) is still a script in a block, and its pushes are still its pushes
+	Long int `json:"long,omitempty"`
 }
 
 // parsePushes reads a script the way Bitcoin scripts are tokenised: 0x01..0x4b push that many bytes, 0x4c /
@@ -181,6 +184,9 @@ func buildScript(s scriptSpec, pool []HexBytes, self ...[]byte) (script []byte, 
 		if len(p) == 0 {
 			pushes[i] = nil
 		}
+	}
+	if s.Long > 0 && s.Long <= 100000 {
+		script = append(bytes.Repeat([]byte{0x61}, s.Long), script...)
 	}
 	return
 }
@@ -676,6 +682,9 @@ func genScriptSpec(t *rapid.T, npool int, forInput bool) scriptSpec {
 	if !forInput && rapid.IntRange(0, 5).Draw(t, "near") == 0 { // almost a standard template
 		s.Mut, s.MutPos = true, rapid.IntRange(-4, 70).Draw(t, "mutpos")
 		s.MutVal = rapid.SampledFrom([]byte{0x00, 0x01, 0x14, 0x15, 0x21, 0x41, 0x4c, 0x4d, 0x4e, 0x51, 0x52, 0x87, 0x88, 0xac, 0xae, 0xa9, 0x76, 0x6a, 0xff}).Draw(t, "mutval")
+	}
+	if rapid.IntRange(0, 39).Draw(t, "long") == 0 {
+		s.Long = rapid.SampledFrom([]int{1, 200, 9900, 9999, 10000, 10001, 20000, 65536}).Draw(t, "longn")
 	}
 	switch s.Cls {
 	case "p2pk":
